@@ -26,6 +26,17 @@ int main(int argc, char **argv) {
     if (line.empty()) continue;
     size_t a = line.find('\t'), b = line.find('\t', a + 1);
     if (a == std::string::npos || b == std::string::npos) continue;
+    if (line.compare(0, 4, "row:") == 0) {
+      // row:<id> \t <indent> \t <name>=<integer value>   -> the text cxxNameDouble::dump_raw writes, '|' for '\n'
+      cxxNameDouble one;
+      parse(line.substr(b + 1), one);
+      std::ostringstream oss;
+      one.dump_raw(oss, (unsigned int) atoi(line.substr(a + 1, b - a - 1).c_str()));
+      std::string txt = oss.str();
+      for (size_t q = 0; q < txt.size(); ++q) if (txt[q] == '\n') txt[q] = '|';
+      std::cout << line.substr(0, a) << "\t" << txt << std::endl;
+      continue;
+    }
     cxxNameDouble t, s;
     parse(line.substr(a + 1, b - a - 1), t);
     parse(line.substr(b + 1), s);
